@@ -7,6 +7,7 @@ import (
 	"math"
 	"math/rand"
 	"regexp"
+	"strconv"
 
 	"go.flow.arcalot.io/pluginsdk/schema"
 	cz "verif/harness/concretize"
@@ -419,25 +420,117 @@ func satisfiesReal(s *cz.Schema, b *cz.Built, v any) (bool, string) {
 var hostileStrings = []string{"zz", "hello world", "12x", "1e3", "0b1", "١", "9999999999999999999999", "-", "+", ".", "1.25", "3.14159",
 	"1h30m", "2 days", "TRUE ", "t r u e", "\x00", "a\nb", "0777", "1,5", "１", "NaN ", "nAn", "0x10", "1e-1"}
 
-func (g *gen) hostile() any {
+// hostileVal is a value outside the abstraction, in a form that can be written to a replay file.
+type hostileVal struct {
+	T string   `json:"t"` // string | float64 | float32 | int64 | uint64 | strings
+	V string   `json:"v,omitempty"`
+	L []string `json:"l,omitempty"`
+}
+
+func (h hostileVal) goValue() (any, error) {
+	switch h.T {
+	case "string":
+		return h.V, nil
+	case "float64":
+		return strconv.ParseFloat(h.V, 64)
+	case "float32":
+		f, err := strconv.ParseFloat(h.V, 32)
+		return float32(f), err
+	case "int64":
+		return strconv.ParseInt(h.V, 10, 64)
+	case "uint64":
+		return strconv.ParseUint(h.V, 10, 64)
+	case "strings":
+		l := make([]any, len(h.L))
+		for i, x := range h.L {
+			l[i] = x
+		}
+		return l, nil
+	}
+	return nil, fmt.Errorf("unknown hostile value type %q", h.T)
+}
+
+func (h hostileVal) class() string {
+	if h.T == "string" {
+		if f, err := strconv.ParseFloat(h.V, 64); err == nil && math.IsNaN(f) {
+			return "str:nan"
+		}
+	}
+	return "hostile:" + h.T
+}
+
+func (g *gen) hostile() hostileVal {
 	switch g.pick(6) {
 	case 0:
-		return pickOf(g, hostileStrings)
+		return hostileVal{T: "string", V: pickOf(g, hostileStrings)}
 	case 1:
-		return g.r.NormFloat64() * math.Pow(10, float64(g.pick(30)-10))
+		return hostileVal{T: "float64", V: strconv.FormatFloat(g.r.NormFloat64()*math.Pow(10, float64(g.pick(30)-10)), 'g', -1, 64)}
 	case 2:
-		return g.r.Int63() - g.r.Int63()
+		return hostileVal{T: "int64", V: strconv.FormatInt(g.r.Int63()-g.r.Int63(), 10)}
 	case 3:
-		return g.r.Uint64()
+		return hostileVal{T: "uint64", V: strconv.FormatUint(g.r.Uint64(), 10)}
 	case 4:
-		return float32(g.r.NormFloat64())
+		return hostileVal{T: "float32", V: strconv.FormatFloat(float64(float32(g.r.NormFloat64())), 'g', -1, 32)}
 	}
 	n := g.pick(4)
-	l := make([]any, n)
+	l := make([]string, n)
 	for i := range l {
 		l[i] = pickOf(g, hostileStrings)
 	}
-	return l
+	return hostileVal{T: "strings", L: l}
+}
+
+// runHostile: all four operations on a value outside the abstraction; judged by the direct
+// invariants only - every call returns, and what Unserialize accepts satisfies the declared
+// constraints of the real schema.
+func runHostile(r *resT, s *cz.Schema, b *cz.Built, e *cz.Embedding, h hostileVal) {
+	hv, err := h.goValue()
+	if err != nil {
+		r.Skipped++
+		return
+	}
+	r.Direct++
+	replayCase := map[string]any{"fam": "direct", "s": s, "emb": e.Name, "hv": h}
+	for _, hop := range []string{"unser", "compat", "valid", "ser"} {
+		ho := callUntyped(b.Type, hop, hv)
+		r.Runs++
+		if ho.Panic != nil {
+			r.miss(map[string]any{"op": hop, "entry": "untyped", "kind_at_fault": s.Kind, "arg_class": h.class(),
+				"divergence": "panic", "frame": ho.Panic.Frame},
+				map[string]any{"panic": ho.Panic.Msg, "go_arg": fmt.Sprintf("%#v", hv), "emb": e.Name, "decodable": true, "case": replayCase})
+			continue
+		}
+		if hop == "unser" && ho.Err == nil {
+			if ok, why := satisfiesReal(s, b, ho.Val); !ok {
+				r.miss(map[string]any{"op": "unser", "entry": "untyped", "kind_at_fault": s.Kind, "arg_class": h.class(), "divergence": "accepts"},
+					map[string]any{"why": why, "go_arg": fmt.Sprintf("%#v", hv), "emb": e.Name, "case": replayCase})
+			}
+		}
+	}
+}
+
+type directCase struct {
+	S   *cz.Schema `json:"s"`
+	Emb string     `json:"emb"`
+	HV  hostileVal `json:"hv"`
+}
+
+func runDirect(raw json.RawMessage) any {
+	var c directCase
+	if err := json.Unmarshal(raw, &c); err != nil || c.S == nil {
+		return map[string]any{"harness_error": "bad direct case"}
+	}
+	e := cz.EmbeddingByName(c.Emb)
+	if e == nil {
+		e = cz.Embeddings[0]
+	}
+	r := &resT{Evals: 1}
+	b, err := cz.Build(c.S, e)
+	if err != nil {
+		return map[string]any{"harness_error": "cannot build schema: " + err.Error()}
+	}
+	runHostile(r, c.S, b, e, c.HV)
+	return r
 }
 
 func runRand(raw json.RawMessage) any {
@@ -491,24 +584,7 @@ func runRand(raw json.RawMessage) any {
 
 		// values outside the abstraction: direct invariants only
 		if i%4 == 0 {
-			hv := g.hostile()
-			r.Direct++
-			for _, hop := range []string{"unser", "compat", "valid", "ser"} {
-				ho := callUntyped(b.Type, hop, hv)
-				r.Runs++
-				if ho.Panic != nil {
-					r.miss(map[string]any{"op": hop, "entry": "untyped", "kind_at_fault": s.Kind, "arg_class": fmt.Sprintf("hostile:%T", hv),
-						"divergence": "panic", "frame": ho.Panic.Frame}, map[string]any{"panic": ho.Panic.Msg, "go_arg": fmt.Sprintf("%#v", hv)})
-					continue
-				}
-				if hop == "unser" && ho.Err == nil {
-					if ok, why := satisfiesReal(s, b, ho.Val); !ok {
-						sb, _ := json.Marshal(s)
-						r.miss(map[string]any{"op": "unser", "entry": "untyped", "kind_at_fault": s.Kind, "arg_class": fmt.Sprintf("hostile:%T", hv),
-							"divergence": "accepts"}, map[string]any{"why": why, "go_arg": fmt.Sprintf("%#v", hv), "schema": string(sb), "emb": e.Name})
-					}
-				}
-			}
+			runHostile(r, s, b, e, g.hostile())
 		}
 	}
 	return r
